@@ -129,7 +129,7 @@ func c01Body(e *fw.Env, r *fw.Result) func(c *choice.Ctx) {
 	qA := []int{0, 25, 50, 75, 100}
 	qFull := []int{0, 9, 10, 24, 25, 49, 50, 74, 75, 100}
 	sizesA := [][2]int{{1, 1}, {4, 3}, {9, 5}, {16, 8}, {17, 17}, {33, 5}}
-	alphasA := []string{"opaque", "binary", "agradient"}
+	alphasA := []string{"opaque", "binary", "agradient", "late"}
 	if !quick {
 		sizesA = c01Sizes
 		alphasA = imgs.Alphas
